@@ -5,7 +5,10 @@
 From Coq Require Import List NArith Bool Sorted String.
 From TG.Gen Require Import GenTokens GenFoldKinds.
 From TG.Model Require Import Chars Tree TreeNav Folding SymbolMap Outline CoreAst OutlineIndex OutlineSpec OutlineChildSpec.
-From TG.Proofs Require Import TreeNavProofs FoldingProofs OutlineProofs OutlineIndexProofs OutlineSourceProofs OutlineVisitProofs OutlineChildProofs.
+From TG.Proofs Require Import TreeNavProofs FoldingProofs OutlineProofs OutlineIndexProofs OutlineSourceProofs OutlineVisitProofs OutlineChildProofs OutlineTotalProofs.
+From TG.Model Require AstToCore Pipeline.
+From TG.Proofs Require OutlineTextProofs.
+From TG.Proofs Require Import SymbolOps OutlineKeepProofs.
 Import ListNotations.
 Open Scope N_scope.
 
@@ -151,24 +154,52 @@ Example C18_outline_example : exists S, run_ops ex_ops = SOk S /\
       DocSym (s2n "M") (s2n "multiclass") 117 118 DKMulticlass [DocSym (s2n "q") (s2n "int") 123 124 DKTemplateArgument []] ]).
 Proof. eexists. split; [vm_compute; reflexivity|]. split; vm_compute; reflexivity. Qed.
 
+(** What an add-op registers is what the final state shows: for EVERY op sequence that replays without error, the entry
+    allocated by an add-op ([SymbolOps.op_alloc o = Some (kind, initial entry, _)]: add_record, add_anonymous_def,
+    add_template_argument, add_record_field, add_variable, add_defset, add_multiclass, add_defm) at its fresh id keeps, to the
+    end, the op's name, define_loc, type string and record kind -- exactly what C18_outline_entry reads from the final state
+    to build the entry (later ops only extend child lists and reference lists). *)
+Theorem C18_outline_registration_kept : forall ops1 o ops2 S1 S k e0 keyed,
+  run_ops ops1 = SOk S1 -> run_ops (ops1 ++ o :: ops2) = SOk S -> op_alloc o = Some (k, e0, keyed) ->
+  exists e, get_entry S (k, next_id S1 k) = Some e /\
+            (e_name e, e_def e, payload_typ (e_payload e), payload_rk (e_payload e)) =
+            (e_name e0, e_def e0, payload_typ (e_payload e0), payload_rk (e_payload e0)).
+Proof. exact registration_kept. Qed.
+Check C18_outline_registration_kept : forall ops1 o ops2 S1 S k e0 keyed,
+  run_ops ops1 = SOk S1 -> run_ops (ops1 ++ o :: ops2) = SOk S -> op_alloc o = Some (k, e0, keyed) ->
+  exists e, get_entry S (k, next_id S1 k) = Some e /\
+            (e_name e, e_def e, payload_typ (e_payload e), payload_rk (e_payload e)) =
+            (e_name e0, e_def e0, payload_typ (e_payload e0), payload_rk (e_payload e0)).
+Print Assumptions C18_outline_registration_kept.
+
 (** ================= Source programs: the outline-relevant slice of the indexer (OutlineIndex.oix, hand model of the
     Class / Def / Defset / MultiClass / TemplateArgDecl / FieldDef / FieldLet / ParentClassList arms of index.rs over the typed
     AST; tied to the code by comparing its op sequence with the projection of the REAL op log) ================= *)
 
+(** The slice is TOTAL: for EVERY workspace AST it neither reaches one of the modelled panics (an id that is not in its
+    arena -- `record_mut` / `symbol(id)` on a dangling id -- or popping an empty scope stack) nor runs out of the fuel
+    [ws_fuel w] (each file is entered at most once by the indexed-once guard, each statement of an entered file is visited
+    once).  Proof: an invariant (every id in the scope stack, in the name tables and in the field maps of the arenas is
+    valid; arenas only grow) and the potential "size of the statement + sizes of the files not yet entered <= fuel". *)
+Theorem C18_outline_slice_total : forall w, oi_bad (oix w) = false.
+Proof. exact oix_total. Qed.
+Check C18_outline_slice_total : forall w, oi_bad (oix w) = false.
+Print Assumptions C18_outline_slice_total.
+
 (** For EVERY workspace AST: the ops the slice emits replay, in the symbol-map state machine, to exactly the state the
-    slice computed (unless a modelled panic occurred) -- so every theorem above about all op sequences applies to the
+    slice computed -- so every theorem above about all op sequences applies to the
     outline of every program. *)
-Theorem C18_outline_slice_replays : forall w, oi_bad (oix w) = false -> run_ops (oix_ops w) = SOk (oi_sm (oix w)).
-Proof. exact oix_replays. Qed.
-Check C18_outline_slice_replays : forall w, oi_bad (oix w) = false -> run_ops (oix_ops w) = SOk (oi_sm (oix w)).
+Theorem C18_outline_slice_replays : forall w, run_ops (oix_ops w) = SOk (oi_sm (oix w)).
+Proof. exact (fun w => oix_replays w (oix_total w)). Qed.
+Check C18_outline_slice_replays : forall w, run_ops (oix_ops w) = SOk (oi_sm (oix w)).
 Print Assumptions C18_outline_slice_replays.
 
 (** ... in particular the per-file list behind the outline of a program is the list of the global add-ops the indexer slice
     makes for that file, in indexing order *)
-Theorem C18_outline_slice_file_list : forall w f, oi_bad (oix w) = false ->
+Theorem C18_outline_slice_file_list : forall w f,
   iter_symbols_in_file (oi_sm (oix w)) f = match globals_in f (oix_ops w) with [] => None | l => Some l end.
-Proof. exact oix_file_list. Qed.
-Check C18_outline_slice_file_list : forall w f, oi_bad (oix w) = false ->
+Proof. exact (fun w f => oix_file_list w f (oix_total w)). Qed.
+Check C18_outline_slice_file_list : forall w f,
   iter_symbols_in_file (oi_sm (oix w)) f = match globals_in f (oix_ops w) with [] => None | l => Some l end.
 Print Assumptions C18_outline_slice_file_list.
 
@@ -238,14 +269,14 @@ Proof. vm_compute. repeat split; reflexivity. Qed.
     inside a defset OF THE SAME FILE, a defset skipped with its body when its type names a class not declared earlier in
     visit order. *)
 
-(** For EVERY workspace on which the slice hits no modelled panic: the global declarations it registers -- file, kind, name,
+(** For EVERY workspace: the global declarations it registers -- file, kind, name,
     identifier range, in indexing order -- are EXACTLY the events of the syntactic visit (so the only declarations ever
     dropped are the defsets whose type does not resolve, and what their bodies contain), and the files it indexed are the
     files the visit entered. *)
-Theorem C18_outline_visit : forall w, oi_bad (oix w) = false ->
+Theorem C18_outline_visit : forall w,
   exists ev v', visit_ws w = Some (ev, v') /\ ops_fdecls (oix_ops w) = ev /\ oi_indexed (oix w) = v_indexed v'.
-Proof. exact oix_visit. Qed.
-Check C18_outline_visit : forall w, oi_bad (oix w) = false ->
+Proof. exact (fun w => oix_visit w (oix_total w)). Qed.
+Check C18_outline_visit : forall w,
   exists ev v', visit_ws w = Some (ev, v') /\ ops_fdecls (oix_ops w) = ev /\ oi_indexed (oix w) = v_indexed v'.
 Print Assumptions C18_outline_visit.
 
@@ -253,11 +284,11 @@ Print Assumptions C18_outline_visit.
     purely syntactic predicate -- the visit completes and every defset's type names only classes declared earlier in visit
     order), then the declarations registered for file f are exactly f's class / named-def-outside-a-defset / defset /
     multiclass statements in source preorder when f is visited (the root, or reached through include), and none otherwise. *)
-Theorem C18_outline_files_complete : forall w, oi_bad (oix w) = false -> decls_wf w = true ->
+Theorem C18_outline_files_complete : forall w, decls_wf w = true ->
   forall f, decls_of_file f (ops_fdecls (oix_ops w)) =
             if mem f (oi_indexed (oix w)) then file_decls (ws_files w) f else [].
-Proof. exact outline_files_complete. Qed.
-Check C18_outline_files_complete : forall w, oi_bad (oix w) = false -> decls_wf w = true ->
+Proof. exact (fun w => outline_files_complete w (oix_total w)). Qed.
+Check C18_outline_files_complete : forall w, decls_wf w = true ->
   forall f, decls_of_file f (ops_fdecls (oix_ops w)) =
             if mem f (oi_indexed (oix w)) then file_decls (ws_files w) f else [].
 Print Assumptions C18_outline_files_complete.
@@ -287,15 +318,15 @@ Proof. vm_compute. repeat split; reflexivity. Qed.
     overridden earlier in the same body, or inherited through the resolved parent classes, depth-first in written order,
     each ancestor once -- registered with f's declared type (CField); plus the record / defset / multiclass registrations. *)
 
-(** For EVERY workspace on which the slice hits no modelled panic: the complete registration stream of the slice
+(** For EVERY workspace: the complete registration stream of the slice
     ([ops_cevs]: add_record / add_anonymous_def / add_defset / add_multiclass / add_template_argument / add_record_field with
     file, name, type string, identifier range, in order) IS that visit.  With C18_outline_entry / _children_order /
     _children_distinct (each registration is inserted into the record's IndexMap under its name) this is the statement's
     "one child per template argument and per field declared or overridden in its body". *)
-Theorem C18_outline_children : forall w, oi_bad (oix w) = false ->
+Theorem C18_outline_children : forall w,
   exists ev c', visitc_ws w = Some (ev, c') /\ ops_cevs (oix_ops w) = ev.
-Proof. exact oix_children. Qed.
-Check C18_outline_children : forall w, oi_bad (oix w) = false ->
+Proof. exact (fun w => oix_children w (oix_total w)). Qed.
+Check C18_outline_children : forall w,
   exists ev c', visitc_ws w = Some (ev, c') /\ ops_cevs (oix_ops w) = ev.
 Print Assumptions C18_outline_children.
 
@@ -318,4 +349,76 @@ Example C18_outline_children_example :
         [DocSym (s2n "x") (s2n "int") 12 13 DKTemplateArgument []; DocSym (s2n "f") (s2n "int") 26 27 DKField []];
       DocSym (s2n "B") (s2n "class") 37 38 DKClass
         [DocSym (s2n "f") (s2n "int") 49 50 DKField []; DocSym (s2n "h") (s2n "string") 78 79 DKField []] ]).
+Proof. vm_compute. repeat split; reflexivity. Qed.
+
+(** ================= End to end FROM THE TEXTS (composition with group bridge's pipeline) =================
+    [Pipeline.analyze pfuel cfuel files root]: the in-memory disk [files] (path, text) is parsed by the model parser, the source
+    set of [root] is collected through the modelled include resolution, each tree is turned into its typed AST by
+    AstToCore.core_of_tree (generated accessor table) -- [an_core a = Ok w] when every file is in the Core fragment.
+    For EVERY disk, root and fuels: when the declarations are well-formed, every top-level declaration the indexer slice
+    registers for file number f -- hence every top-level outline entry of f (C18_outline_slice_file_list, C18_outline_of_file) --
+    carries a name that STANDS IN THE TEXT of file f at exactly the entry's (selection) range. *)
+Theorem C18_outline_in_text : forall pfuel cfuel files root a w,
+  Pipeline.analyze pfuel cfuel files root = Some a -> Pipeline.an_core a = AstToCore.Ok w -> decls_wf w = true ->
+  forall f k n lo hi, In (k, n, lo, hi) (decls_of_file f (ops_fdecls (oix_ops w))) ->
+  exists txt, nth_error (map (fun fp => Pipeline.pf_text (snd fp)) (Pipeline.an_files a)) (N.to_nat f) = Some txt /\
+              exists pre suf, txt = pre ++ n ++ suf /\ lo = bytes pre /\ hi = bytes pre + bytes n.
+Proof. exact OutlineTextProofs.outline_decls_in_text. Qed.
+Check C18_outline_in_text : forall pfuel cfuel files root a w,
+  Pipeline.analyze pfuel cfuel files root = Some a -> Pipeline.an_core a = AstToCore.Ok w -> decls_wf w = true ->
+  forall f k n lo hi, In (k, n, lo, hi) (decls_of_file f (ops_fdecls (oix_ops w))) ->
+  exists txt, nth_error (map (fun fp => Pipeline.pf_text (snd fp)) (Pipeline.an_files a)) (N.to_nat f) = Some txt /\
+              exists pre suf, txt = pre ++ n ++ suf /\ lo = bytes pre /\ hi = bytes pre + bytes n.
+Print Assumptions C18_outline_in_text.
+
+(** ... and the same for the CHILDREN, without any side condition: every registration of the slice -- record, defset,
+    multiclass, template argument, field, field override; hence every outline entry at any depth -- carries a name that stands
+    in the text of the file it is registered in, at exactly its range.  The one exception is the synthesized name
+    `anonymous_N` of an anonymous def. *)
+Theorem C18_outline_children_in_text : forall pfuel cfuel files root a w,
+  Pipeline.analyze pfuel cfuel files root = Some a -> Pipeline.an_core a = AstToCore.Ok w ->
+  let texts := map (fun fp => Pipeline.pf_text (snd fp)) (Pipeline.an_files a) in
+  let at_ := fun (f : N) (n : SymbolMap.name) (lo hi : N) =>
+    exists txt, nth_error texts (N.to_nat f) = Some txt /\ exists pre suf, txt = pre ++ n ++ suf /\ lo = bytes pre /\ hi = bytes pre + bytes n in
+  forall e, In e (ops_cevs (oix_ops w)) ->
+  match e with
+  | CRec f _ n lo hi _ | CMc f n lo hi | CDefset f n _ lo hi | CTArg f n _ lo hi | CField f n _ lo hi => at_ f n lo hi
+  | CAnon _ _ _ _ => True
+  end.
+Proof. exact OutlineTextProofs.outline_children_in_text'. Qed.
+Check C18_outline_children_in_text : forall pfuel cfuel files root a w,
+  Pipeline.analyze pfuel cfuel files root = Some a -> Pipeline.an_core a = AstToCore.Ok w ->
+  let texts := map (fun fp => Pipeline.pf_text (snd fp)) (Pipeline.an_files a) in
+  let at_ := fun (f : N) (n : SymbolMap.name) (lo hi : N) =>
+    exists txt, nth_error texts (N.to_nat f) = Some txt /\ exists pre suf, txt = pre ++ n ++ suf /\ lo = bytes pre /\ hi = bytes pre + bytes n in
+  forall e, In e (ops_cevs (oix_ops w)) ->
+  match e with
+  | CRec f _ n lo hi _ | CMc f n lo hi | CDefset f n _ lo hi | CTArg f n _ lo hi | CField f n _ lo hi => at_ f n lo hi
+  | CAnon _ _ _ _ => True
+  end.
+Print Assumptions C18_outline_children_in_text.
+
+(** Non-vacuity, computed from the texts alone: /r/main.td = `include "inc.td"\nclass A<int x> { int f; }\ndef d : A<1>;\n`,
+    /r/inc.td = `class K;\n`.  The pipeline yields a Core workspace with well-formed declarations; file 0 lists A (with its
+    template argument and field) and d, file 1 lists K. *)
+Definition ex_t_main : text := [105;110;99;108;117;100;101;32;34;105;110;99;46;116;100;34;10;99;108;97;115;115;32;65;60;105;110;116;32;120;62;32;123;32;105;110;116;32;102;59;32;125;10;100;101;102;32;100;32;58;32;65;60;49;62;59;10].
+Definition ex_t_inc : text := [99;108;97;115;115;32;75;59;10].
+Definition ex_p_main : text := [47;114;47;109;97;105;110;46;116;100].
+Definition ex_p_inc : text := [47;114;47;105;110;99;46;116;100].
+Example C18_outline_in_text_example :
+  match Pipeline.analyze 4000 10 [(ex_p_main, ex_t_main); (ex_p_inc, ex_t_inc)] ex_p_main with
+  | Some a =>
+      match Pipeline.an_core a with
+      | AstToCore.Ok w =>
+          decls_wf w = true /\
+          decls_of_file 0 (ops_fdecls (oix_ops w)) = [(DClass, s2n "A", 23, 24); (DDef, s2n "d", 47, 48)] /\
+          decls_of_file 1 (ops_fdecls (oix_ops w)) = [(DClass, s2n "K", 6, 7)] /\
+          outline_of_ws w 0 = SOk (Some
+            [ DocSym (s2n "A") (s2n "class") 23 24 DKClass
+                [DocSym (s2n "x") (s2n "int") 29 30 DKTemplateArgument []; DocSym (s2n "f") (s2n "int") 38 39 DKField []];
+              DocSym (s2n "d") (s2n "def") 47 48 DKDef [] ])
+      | _ => False
+      end
+  | None => False
+  end.
 Proof. vm_compute. repeat split; reflexivity. Qed.
